@@ -111,8 +111,10 @@ pub fn val_len_strategy(p: ValProfile) -> BoxedStrategy<u32> {
 }
 
 pub fn val_strategy(p: ValProfile) -> BoxedStrategy<Val> {
-    (val_len_strategy(p), 0u32..4)
-        .prop_map(|(len, seed)| Val::P { len, seed })
+    // one value in eight has particular content (all zero, all 0xFF, leading byte order mark,
+    // prefix-stable stream, repeated byte, trailing NULs, valid text, leading 0x00)
+    (val_len_strategy(p), 0u32..4, 0u8..64)
+        .prop_map(|(len, seed, c)| if c < 8 { Val::C { len, seed, form: c } } else { Val::P { len, seed } })
         .boxed()
 }
 
@@ -128,6 +130,7 @@ pub fn text_val_strategy(big: bool) -> BoxedStrategy<Val> {
         6 => (0u32..300, 0u32..16).prop_map(|(len, seed)| Val::U { len, seed }),
         2 => (proptest::sample::select(lens), 0u32..16).prop_map(|(len, seed)| Val::U { len, seed }),
         2 => val_strategy(ValProfile::Small),
+        1 => (0u32..300, 0u32..16, proptest::sample::select(vec![2u8, 6])).prop_map(|(len, seed, form)| Val::C { len, seed, form }),
     ]
     .boxed()
 }
@@ -232,8 +235,20 @@ pub fn key_strategy(kt: Kt, p: KeyProfile) -> BoxedStrategy<Key> {
                 }
             })
             .boxed(),
-        Kt::U64 | Kt::I64 => int_strategy()
-            .prop_map(|n| Key::B(n.to_le_bytes().to_vec()))
+        // DbU64 / DbI64 wrap a byte vector too (From<&[u8]>, From<&str> are public, and the conversion
+        // back to an integer pads keys shorter than 8 bytes): one key in twelve is not 8 bytes long
+        Kt::U64 | Kt::I64 => (int_strategy(), 0u8..12, 0u32..13)
+            .prop_map(|(n, odd, len)| {
+                if odd == 0 && len != 8 {
+                    if len == 0 {
+                        Key::B(vec![])
+                    } else {
+                        Key::P { len, seed: (n % 1000) as u32 }
+                    }
+                } else {
+                    Key::B(n.to_le_bytes().to_vec())
+                }
+            })
             .boxed(),
         Kt::Vu64 => int_strategy().prop_map(|n| Key::B(vu64_encode(n))).boxed(),
     }
@@ -426,6 +441,20 @@ pub fn size_bounds(keys: &[Key], ops: &[Op]) -> (u64, u64) {
                     kb += kslot * 2;
                 }
             }
+            Op::PutRel { .. } => {
+                let maxv = ops
+                    .iter()
+                    .map(|op| match op {
+                        Op::Put { v, .. } | Op::PutStr { v, .. } | Op::Burst { v, .. } => v.len(),
+                        Op::BulkPut { kvs } | Op::BulkPutStr { kvs } | Op::PutFromIter { kvs } => kvs.iter().map(|kv| kv.1.len()).max().unwrap_or(0),
+                        _ => 0,
+                    })
+                    .max()
+                    .unwrap_or(0);
+                let nrel = ops.iter().filter(|op| matches!(op, Op::PutRel { .. })).count();
+                vb += vslot(maxv.max(8192) + 700 * nrel);
+                kb += kslot * 2;
+            }
             Op::PutFromOwnIter { .. } => {
                 let maxv = ops
                     .iter()
@@ -556,6 +585,8 @@ pub fn op_strategy(cfg: &OpsCfg, n_keys: usize, default_params: Params) -> Boxed
             vs.clone()
         };
         alts.push((w.put, (k(), pv).prop_map(|(k, v)| Op::Put { k, v }).boxed()));
+        // puts whose value is derived from the stored one (append, truncate, identical, one byte, prepend, doubled)
+        alts.push(((w.put / 8).max(1), (k(), 0u8..6, any::<u16>()).prop_map(|(k, mode, n)| Op::PutRel { k, mode, n }).boxed()));
     }
     if w.burst > 0 {
         alts.push((
@@ -650,6 +681,9 @@ pub fn op_strategy(cfg: &OpsCfg, n_keys: usize, default_params: Params) -> Boxed
             prop_oneof![
                 4 => (0u8..7, proptest::option::weighted(0.3, 0u16..20)).prop_map(|(f, take)| Op::Iter { f, take }),
                 1 => (0u8..7, 0u8..5, k()).prop_map(|(f, every, k)| Op::IterMix { f, every, k }),
+                1 => (0u8..7, 0u8..6).prop_map(|(f, n)| Op::IterNth { f, n }),
+                1 => (0u8..4, 0u8..5).prop_map(|(f, take)| Op::HoldIter { f, take }),
+                1 => Just(Op::DropIters),
             ]
             .boxed(),
         ));
@@ -680,6 +714,7 @@ pub fn op_strategy(cfg: &OpsCfg, n_keys: usize, default_params: Params) -> Boxed
                 2 => Just(Op::Reacquire),
                 2 => (0u8..32).prop_map(|v| Op::ReacquireP { v }),
                 1 => Just(Op::CloneDb),
+                1 => prop_oneof![3 => Just(Op::HidePath), 1 => Just(Op::DropDb)],
                 4 => (0..nm).prop_map(|m| Op::Use { m }),
             ]
             .boxed(),
@@ -766,6 +801,11 @@ pub struct HistCfg {
     pub default_table: bool,
     /// use a table of exactly this many buckets (beyond the usual list of sizes)
     pub big_table: Option<u64>,
+    /// half way through, every key of the pool (fillers included) is deleted: the map is emptied
+    /// completely and then refilled by the second half
+    pub empty_mid: bool,
+    /// the history ends with the deletion of every key: the final state is an emptied map
+    pub empty_end: bool,
 }
 
 #[derive(Clone, Copy, Debug, PartialEq, Eq)]
@@ -931,6 +971,9 @@ fn prelude_ops(p: Prelude, kt: Kt, keys: &mut Vec<Key>) -> Vec<Op> {
 /// byte patterns, files beyond 2 MiB (the offset fields grow from 3 to 4 bytes)
 pub fn rare_regions(c: &mut HistCfg, index: u64) {
     c.phases = index % 10 == 4;
+    // maps emptied completely: in the middle (then refilled) and at the end
+    c.empty_mid = index % 9 == 2;
+    c.empty_end = index % 25 == 7;
     c.special_keys = index % 8 == 3;
     if index % 50 == 21 {
         c.prelude = Prelude::Inflate { val_bytes: 2_200_000, key_bytes: 0 };
@@ -1026,6 +1069,21 @@ pub fn history_strategy(cfg: HistCfg) -> BoxedStrategy<History> {
                     // the last two prelude ops stay observed (the extend-only rule needs the state
                     // before the final request)
                     let quiet = all.len().saturating_sub(2);
+                    let mut ops = ops;
+                    let del_all = |keys: &Vec<Key>, rot: usize| -> Vec<Op> {
+                        let n = keys.len();
+                        (0..n).map(|j| Op::Del { k: ((j + rot) % n) as u32 }).collect()
+                    };
+                    if cfg3.empty_mid && keys.len() <= 20000 {
+                        let at = ops.len() / 2;
+                        let tail = ops.split_off(at);
+                        ops.extend(del_all(&keys, at));
+                        ops.extend(tail);
+                    }
+                    if cfg3.empty_end && keys.len() <= 20000 {
+                        let r = ops.len();
+                        ops.extend(del_all(&keys, r));
+                    }
                     all.extend(ops);
                     let mut ops = all;
                     tame_bursts(&mut ops);
